@@ -28,9 +28,14 @@ Stated honestly:
 * end-of-day saturation below the table: unconditionally `th ≥ th_s` for every compartment whose
   centre is at or below the table (groundwater inflow is the last process that writes `th`);
   `th = th_s` needs `th ≤ th_s` before the inflow, i.e. the premises of `C03.day_inv`;
-* the interpolated series is linear in the *index position* between two observations that fall
-  on simulation days; an observation dated outside the simulation is appended after the last day
-  (see `Model/GwSeries.lean`) — not covered by `gw_series_interpolated`.
+* the "Variable" series is linear **in time** between consecutive observations, wherever they are
+  dated (before the first simulated day, inside the period, after the last day): the table is
+  de-duplicated (the last row of a date wins), sorted by date, and interpolated over dates
+  (`gw_series_interpolated`; `gw_series_window_independent`: the length of the simulation does
+  not enter); `NaN` before the first observation (`gw_series_before_first_nan`,
+  `gw_series_nan_iff`), the last depth from the last observation on (`gw_series_after_last`).
+  "Consecutive" is a premise of `gw_series_interpolated`: both rows are the last rows of their
+  dates and no row of the table is dated strictly between them.
 Only theorems live here; lemmas are in `Proofs/`.
 -/
 
@@ -212,13 +217,65 @@ theorem gw_series_at_observation (n : Nat) (pre post : List (Int × α)) (d : Na
     (gwVariable n (pre ++ (Int.ofNat d, v) :: post))[d]? = some (some v) :=
   gw_variable_at_obs n pre post d v hd hpost
 
-/-- "Variable" method: between an observation `va` and the next observation `vb`, `m` days later
-plus one, the `t`-th missing day lies on the straight line `va + (vb − va)·(t+1)/(m+1)`. -/
-theorem gw_series_interpolated (s1 s2 : List (Option α)) (va vb : α) (m t : Nat) (ht : t < m) :
-    (fillGaps (validPts 0 (s1 ++ some va :: (List.replicate m none ++ some vb :: s2))) 0 false
-        (s1 ++ some va :: (List.replicate m none ++ some vb :: s2)))[s1.length + 1 + t]? =
-      some (some ((vb - va) / ((m : α) + 1) * ((t : α) + 1) + va)) :=
-  fillGaps_between s1 s2 va vb m t ht
+/-- "Variable" method: **between two consecutive observations** `(d0, v0)` and `(d1, v1)` — each the
+last row of the table carrying its date, no row of the table dated strictly between `d0` and
+`d1` — a simulation day `i` with `d0 ≤ i < d1` has the depth on the straight line *in time*
+`v0 + (v1 − v0)·(i − d0)/(d1 − d0)`.  Dates are day offsets from the first simulated day; `d0`
+may be negative and `d1` may be `≥ n` (observations outside the simulated period). -/
+theorem gw_series_interpolated (n : Nat) (obs pre0 post0 pre1 post1 : List (Int × α))
+    (d0 d1 : Int) (v0 v1 : α) (i : Nat) (hi : i < n)
+    (e0 : obs = pre0 ++ (d0, v0) :: post0) (hpost0 : ∀ q ∈ post0, q.1 ≠ d0)
+    (e1 : obs = pre1 ++ (d1, v1) :: post1) (hpost1 : ∀ q ∈ post1, q.1 ≠ d1)
+    (hno : ∀ q ∈ obs, ¬ (d0 < q.1 ∧ q.1 < d1)) (h0 : d0 ≤ Int.ofNat i) (h1 : Int.ofNat i < d1) :
+    (gwVariable n obs)[i]? =
+      some (some ((v1 - v0) / ((d1 - d0 : Int) : α) * ((Int.ofNat i - d0 : Int) : α) + v0)) :=
+  gw_variable_between n obs pre0 post0 pre1 post1 d0 d1 v0 v1 i hi e0 hpost0 e1 hpost1 hno h0 h1
+
+/-- … and that depth lies between the two observed depths. -/
+theorem gw_series_interpolated_within (n : Nat) (obs pre0 post0 pre1 post1 : List (Int × α))
+    (d0 d1 : Int) (v0 v1 : α) (i : Nat) (hi : i < n)
+    (e0 : obs = pre0 ++ (d0, v0) :: post0) (hpost0 : ∀ q ∈ post0, q.1 ≠ d0)
+    (e1 : obs = pre1 ++ (d1, v1) :: post1) (hpost1 : ∀ q ∈ post1, q.1 ≠ d1)
+    (hno : ∀ q ∈ obs, ¬ (d0 < q.1 ∧ q.1 < d1)) (h0 : d0 ≤ Int.ofNat i) (h1 : Int.ofNat i < d1) :
+    ∃ z, (gwVariable n obs)[i]? = some (some z) ∧ min v0 v1 ≤ z ∧ z ≤ max v0 v1 :=
+  gw_variable_between_bounds n obs pre0 post0 pre1 post1 d0 d1 v0 v1 i hi e0 hpost0 e1 hpost1 hno
+    h0 h1
+
+/-- "Variable" method: a simulation day before every observation is `NaN`. -/
+theorem gw_series_before_first_nan (n : Nat) (obs : List (Int × α)) (i : Nat) (hi : i < n)
+    (h : ∀ q ∈ obs, Int.ofNat i < q.1) : (gwVariable n obs)[i]? = some none :=
+  gw_variable_before_first n obs i hi h
+
+/-- … and only those days: day `i` has a depth exactly when some observation is dated on or before
+it. -/
+theorem gw_series_nan_iff (n : Nat) (obs : List (Int × α)) (i : Nat) (hi : i < n) :
+    (∃ z, (gwVariable n obs)[i]? = some (some z)) ↔ ∃ q ∈ obs, q.1 ≤ Int.ofNat i :=
+  gw_variable_isSome_iff n obs i hi
+
+/-- "Variable" method: from the latest observation date on (the row being the last one carrying
+that date) the series holds that depth. -/
+theorem gw_series_after_last (n : Nat) (pre post : List (Int × α)) (d : Int) (v : α) (i : Nat)
+    (hi : i < n) (hpost : ∀ q ∈ post, q.1 ≠ d)
+    (hlast : ∀ q ∈ pre ++ (d, v) :: post, q.1 ≤ d) (hd : d ≤ Int.ofNat i) :
+    (gwVariable n (pre ++ (d, v) :: post))[i]? = some (some v) :=
+  gw_variable_after_last n pre post d v i hi hpost hlast hd
+
+/-- "Variable" method: **the length of the simulation does not enter** — a day covered by two
+simulations of different length (same start, same table) has the same depth in both. -/
+theorem gw_series_window_independent (n m : Nat) (obs : List (Int × α)) (i : Nat) (hn : i < n)
+    (hm : i < m) : (gwVariable n obs)[i]? = (gwVariable m obs)[i]? :=
+  gw_variable_window_independent n m obs i hn hm
+
+/-- "Variable" method: the order of the rows of a table with distinct dates does not matter. -/
+theorem gw_series_row_order_irrelevant (n : Nat) (obs obs' : List (Int × α)) (hp : obs.Perm obs')
+    (h : obs.Pairwise (fun a b => a.1 ≠ b.1)) : gwVariable n obs = gwVariable n obs' :=
+  gw_variable_perm n obs obs' hp h
+
+/-- "Variable" method: starting the simulation `k` days later (every date offset decreases by `k`)
+gives the old series from day `k` on. -/
+theorem gw_series_start_shift (n k : Nat) (obs : List (Int × α)) (i : Nat) (hi : i < n) :
+    (gwVariable n (shiftDates (-(k : Int)) obs))[i]? = (gwVariable (n + k) obs)[i + k]? :=
+  gw_variable_shift n k obs i hi
 
 /-! ### non-vacuity -/
 
@@ -235,10 +292,26 @@ example : ∃ out, waterDay DayExample.Fq DayExample.Wq DayExample.fmq DayExampl
   simp only [DayExample.cellsq, List.mem_cons, List.not_mem_nil, or_false] at hx
   rcases hx with rfl | rfl | rfl | rfl <;> norm_num [DayExample.cq, DayExample.Dq]
 
-/-- observations on day 1 (1 m) and day 3 (2 m) of a 5-day run: linear on day 2, last value held -/
+/-- observations on day 1 (1 m) and day 3 (2 m) of a 5-day run: `NaN` before, linear on day 2, last
+value held -/
 example : gwVariable 5 [((1 : Int), (1 : ℚ)), (3, 2)] =
     [none, some 1, some (3 / 2), some 2, some 2] := by
   decide +kernel
+
+/-- observations 10 days before the start (1 m), on day 5 (2.5 m) and 9 days after the last day
+(4 m) of an 11-day run: straight lines in time through all three -/
+example : gwVariable 11 [((-10 : Int), (1 : ℚ)), (5, 5/2), (20, 4)] =
+    [some 2, some (21/10), some (11/5), some (23/10), some (12/5), some (5/2), some (13/5),
+     some (27/10), some (14/5), some (29/10), some 3] := by
+  decide +kernel
+
+/-- `gw_series_interpolated` with both observations outside a 3-day simulation (`d0 = −2`,
+`d1 = 7`), rows not in date order: day 1 is at 1 + 3·3/9 = 2 m -/
+example : (gwVariable 3 [((7 : Int), (4 : ℚ)), (-2, 1)])[1]? = some (some 2) := by
+  rw [gw_series_interpolated 3 [((7 : Int), (4 : ℚ)), (-2, 1)] [((7 : Int), (4 : ℚ))] [] []
+    [((-2 : Int), (1 : ℚ))] (-2) 7 1 4 1 (by decide) rfl (by simp) rfl (by simp) (by simp)
+    (by decide) (by decide)]
+  norm_num
 
 /-! ### every day of every run (`Proofs/RunLift.lean`) -/
 
